@@ -206,3 +206,8 @@ mod tests {
         assert_eq!(std::str::from_utf8(&out).unwrap(), expected);
     }
 }
+
+// verification hook (add-only, inert unless built by `cargo kani`, which sets --cfg kani)
+#[cfg(kani)]
+#[path = "/verif/kani/base64_reader_harness.rs"]
+mod verif_kani;
